@@ -13,7 +13,7 @@ MONITORS = ["fresh_view_equals_model", "check_passes", "dirname_is_hash", "len_i
 RULE = (
     "Histories over a small universe (state point keys a in {1,1.0,'1'}, b in {0,1,True}, c, nested n; 3 file "
     "names incl. a nested one; 2 projects; handles by state point, by id, from iteration, copy.copy, deepcopy, "
-    "pickle round trip). Ops: open, init, document set/del/reset, file write, clear, reset, remove, state point "
+    "pickle round trip, and a handle pickled into a freshly started interpreter that performs the next operation). Ops: open, init, document set/del/reset, file write, clear, reset, remove, state point "
     "key set/attr set/del, nested edit, whole assignment, update_statepoint(+-overwrite), move, clone, "
     "update_cache, restart session, drop all handles, junk entries in the workspace. Bounded-exhaustive over a "
     "12-op reduced alphabet for length<=3 (quick) / <=4 (thorough), seeded random up to length 60. After EVERY "
@@ -100,7 +100,7 @@ def rand_op(rng):
     if r < 0.97:
         return ["update_cache", rng.randrange(2)]
     if r < 0.985:
-        return ["restart", rng.randrange(2)]
+        return ["restart", rng.randrange(2)] if rng.random() < 0.6 else ["procdo", i, rng.randrange(5)]
     if r < 0.99:
         return ["drop_all"]
     return ["junk", rng.randrange(2), rng.randrange(7)]
